@@ -53,8 +53,16 @@ def load_known():
     return out
 
 
+def run_cfg(prop, run):
+    cfg = dict(PROPS[prop])
+    for k in ("pkg", "hdir", "module"):
+        if k in run:
+            cfg[k] = run[k]
+    return cfg
+
+
 def run_symgo(prop, run, tier, known_keys):
-    cfg = PROPS[prop]
+    cfg = run_cfg(prop, run)
     moddir = os.path.join(REPO, cfg.get("module", "")) if cfg.get("module") else REPO
     outp = tempfile.mktemp(prefix="symgo_", suffix=".json", dir=os.path.join(VERIF, "scratch"))
     cmd = [SYMGO, "-dir", moddir, "-pkg", cfg["pkg"], "-harness", run["harness"], "-out", outp,
@@ -120,10 +128,10 @@ class Replayer:
     def close(self):
         shutil.rmtree(self.tmp, ignore_errors=True)
 
-    def build(self, harness):
+    def build(self, harness, cfg=None):
         if harness in self.bins:
             return self.bins[harness]
-        cfg = self.cfg
+        cfg = cfg or self.cfg
         moddir = os.path.join(REPO, cfg.get("module", "")) if cfg.get("module") else REPO
         env = goenv(cfg.get("module", ""))
         # package directory relative to module
@@ -148,8 +156,8 @@ class Replayer:
         self.bins[harness] = (binp, pkgdir)
         return self.bins[harness]
 
-    def run(self, harness, model, choices, known_keys):
-        binp, pkgdir = self.build(harness)
+    def run(self, harness, model, choices, known_keys, cfg=None):
+        binp, pkgdir = self.build(harness, cfg)
         mf = os.path.join(self.tmp, "model_%s.json" % hashlib.sha1(json.dumps([model, choices], sort_keys=True).encode()).hexdigest()[:12])
         json.dump({"model": model, "choices": choices}, open(mf, "w"))
         env = dict(os.environ)
@@ -206,7 +214,7 @@ def check(prop, tier):
                     continue
                 hit = None
                 for v in res.get("violations") or []:
-                    out = rp.run(run["harness"], v["model"], v["choices"], known_keys)
+                    out = rp.run(run["harness"], v["model"], v["choices"], known_keys, run_cfg(prop, run))
                     if classify_replay(out, v):
                         hit = v
                         break
@@ -221,7 +229,7 @@ def check(prop, tier):
                 if not (res.get("reached") or {}).get(lbl):
                     inconclusive.append(f"{run['harness']}: vacuity guard: label {lbl!r} never reached")
             for v in res.get("violations") or []:
-                out = rp.run(run["harness"], v["model"], v["choices"], known_keys)
+                out = rp.run(run["harness"], v["model"], v["choices"], known_keys, run_cfg(prop, run))
                 ok = classify_replay(out, v)
                 v["confirmed"] = ok
                 v["replay_out"] = out[-1500:]
@@ -233,7 +241,7 @@ def check(prop, tier):
             if st in ("ok", "violation"):
                 nval = run.get("validate", 2 if tier == "quick" else 5)
                 for s in (res.get("samples") or [])[:nval]:
-                    out = rp.run(run["harness"], s.get("model") or {}, s.get("choices") or {}, known_keys)
+                    out = rp.run(run["harness"], s.get("model") or {}, s.get("choices") or {}, known_keys, run_cfg(prop, run))
                     if "VERIF-COMPLETED" in out and "VERIF-ASSERT-FAIL" not in out and observed_lines(out) == (s.get("observed") or []):
                         validated += 1
                     elif "VERIF-ASSUME-FAIL" in out:
